@@ -24,10 +24,14 @@ THEOREMS = [
     "PauLie.C16.C16_symmetries_orthogonal", "PauLie.C16.C16_twirl_formula", "PauLie.C16.C16_twirl_linear",
     "PauLie.C16.C16_twirl_idempotent", "PauLie.C16.C16_twirl_fixes", "PauLie.C16.C16_twirl_commutes",
     "PauLie.C16.C16_twirl_residual", "PauLie.C16.C16_twirl_selfadjoint", "PauLie.C16.C16_count_le", "PauLie.C16.C16_partial",
+    # completeness half (Properties/C16Complete.lean)
+    "PauLie.C16.C16_complete", "PauLie.C16.C16_complete_lin", "PauLie.C16.C16_count", "PauLie.C16.C16_complete_count",
+    "PauLie.C16.C16_twirl_is_projection", "PauLie.C16.C16_full",
 ]
 IMPORTS = [
     # filled in by the Lean side
     "PauLieVerif.Properties.C16",
+    "PauLieVerif.Properties.C16Complete",
 ]
 # ======================================================================
 if os.environ.get("C16_NOPROOF"):
@@ -783,10 +787,12 @@ RULE = ("corpus witnesses; qbasis (exact text vs the model + dense numpy oracle 
         "non-trivial = the basis has a symmetry with >=2 terms (non-abelian situation) and, for twirl, the result is non-zero")
 
 ASSUMPTIONS = [
-    "COMPLETENESS of the basis (number of symmetries = dimension of the commutant of {g(x)1+1(x)g}) is NOT proved -- it is a theorem "
-    "of arXiv:2502.16404; Lean proves only count <= dimension for all n (C16_count_le: the symmetries are linearly independent "
-    "members of the commutant); the spanning direction '>=' is decided per input by the numpy/Pauli-basis null-space oracle for "
-    "n<=2 (quick) / n<=3 (thorough)",
+    "COMPLETENESS of the basis is PROVED about the model for all n and all non-empty collections (Properties/C16Complete.lean): "
+    "every 4^n x 4^n complex matrix commuting with all g(x)1+1(x)g is the combination sum_Q tr(Q†X)/tr(Q†Q) * Q of the returned "
+    "symmetries (C16_complete), their number equals Module.finrank of the commutant (C16_count), the twirl is the unique "
+    "orthogonal projection onto the commutant (C16_twirl_is_projection), and C16_full is the whole statement without hypothesis; "
+    "the numpy/Pauli-basis null-space oracle (n<=2 quick / n<=3 thorough) still decides the count per input on the "
+    "IMPLEMENTATION's printed basis, independently of the proof",
     "floats are not modelled: the model computes the twirl in exact rational form sum_Q tr(Q†M)/tr(Q†Q) * Q (the sqrt of the "
     "normalisation cancels algebraically); the thresholds 1e-12 of the source are modelled as exact comparisons with 0; the float "
     "realisation is compared with the model at 1e-9 and the projector clauses are evaluated on it at 1e-9*scale",
